@@ -8,6 +8,8 @@
 //!  (3) generated F2/F3 programs with many `?`/`!` in every position against `Abra.Sem`;
 //!  (4) every try lowering found in the real unoptimised assembly of those programs against `tryCode`
 //!      (`trylower …` requests; parameters read from the dump, the shape from the model).
+#[path = "../bg9cov.rs"]
+mod bg9cov;
 #[path = "../progen.rs"]
 mod progen;
 use progen::run::*;
@@ -282,6 +284,8 @@ fn main() {
 
     // ---- (3) generated programs, `?`/`!` boosted
     let base = probe_shapes(&mut ctx);
+    // coverage-guided template families with their own oracles (harness/src/bg9cov.rs)
+    bg9cov::run_templates(&mut ctx, "C23");
     let n = if ctx.quick() { 160 } else { 4000 };
     struct Job {
         prog: Program,
